@@ -93,6 +93,34 @@ func srvEcho(req packet.Request) (uint16, packet.Response) {
 	panic("srvEcho: unexpected request type")
 }
 
+// srvMutate overwrites the scalar fields of a parsed request in place (transaction id, unit id,
+// addresses, read quantities); payload slices are left alone (they alias the server's buffer)
+func srvMutate(req packet.Request) {
+	switch q := req.(type) {
+	case *packet.ReadCoilsRequestTCP:
+		q.TransactionID, q.UnitID, q.StartAddress, q.Quantity = q.TransactionID^0x5555, q.UnitID+17, q.StartAddress^0x0F0F, 1
+	case *packet.ReadDiscreteInputsRequestTCP:
+		q.TransactionID, q.UnitID, q.StartAddress, q.Quantity = q.TransactionID^0x5555, q.UnitID+17, q.StartAddress^0x0F0F, 1
+	case *packet.ReadHoldingRegistersRequestTCP:
+		q.TransactionID, q.UnitID, q.StartAddress, q.Quantity = q.TransactionID^0x5555, q.UnitID+17, q.StartAddress^0x0F0F, 1
+	case *packet.ReadInputRegistersRequestTCP:
+		q.TransactionID, q.UnitID, q.StartAddress, q.Quantity = q.TransactionID^0x5555, q.UnitID+17, q.StartAddress^0x0F0F, 1
+	case *packet.WriteSingleCoilRequestTCP:
+		q.TransactionID, q.UnitID, q.Address, q.CoilState = q.TransactionID^0x5555, q.UnitID+17, q.Address^0x0F0F, !q.CoilState
+	case *packet.WriteSingleRegisterRequestTCP:
+		q.TransactionID, q.UnitID, q.Address = q.TransactionID^0x5555, q.UnitID+17, q.Address^0x0F0F
+	case *packet.WriteMultipleCoilsRequestTCP:
+		q.TransactionID, q.UnitID, q.StartAddress = q.TransactionID^0x5555, q.UnitID+17, q.StartAddress^0x0F0F
+	case *packet.WriteMultipleRegistersRequestTCP:
+		q.TransactionID, q.UnitID, q.StartAddress = q.TransactionID^0x5555, q.UnitID+17, q.StartAddress^0x0F0F
+	case *packet.ReadServerIDRequestTCP:
+		q.TransactionID, q.UnitID = q.TransactionID^0x5555, q.UnitID+17
+	case *packet.ReadWriteMultipleRegistersRequestTCP:
+		q.TransactionID, q.UnitID, q.ReadStartAddress, q.ReadQuantity, q.WriteStartAddress =
+			q.TransactionID^0x5555, q.UnitID+17, q.ReadStartAddress^0x0F0F, 1, q.WriteStartAddress^0x0F0F
+	}
+}
+
 // Handle: behaviour chosen by the transaction id (see coq/DispServer.v)
 func (h srvHandler) Handle(ctx context.Context, req packet.Request) (packet.Response, error) {
 	if h.mode == 1 {
@@ -102,6 +130,9 @@ func (h srvHandler) Handle(ctx context.Context, req packet.Request) (packet.Resp
 		time.Sleep(srvSlowHandler) // longer than the WriteTimeout of the rig it runs in
 	}
 	tid, resp := srvEcho(req)
+	// gateway style: the handler renumbers / remaps the request it was handed, in place, before it
+	// returns; every reply must still be addressed from the frame that arrived
+	srvMutate(req)
 	cls := int(tid % 8)
 	k := uint8((tid / 8) % 256)
 	switch {
